@@ -328,6 +328,61 @@ def b_find_turns(ctx):
     ctx.sample({'signal': [0, 1, 1, 0, 2, 2, 1], 'TP': TP([0, 1, 1, 0, 2, 2, 1])})
 
 
+@bounded('C02', 'containers-and-dtypes', shards=4)
+def b_containers(ctx):
+    """the same integer-valued signal handed to the three detectors as a float64 array, a list of ints, an int64 / float32 / uint16 array and an integer Series, in one
+    piece and in chunks, also streamed through ONE re-used buffer: cycles, indices and residuals as for the float64 array (the rainflow definition does not depend on
+    how the numbers are stored; added after seed C02-e stopped copying / converting the first chunk)"""
+    import numpy as np
+    import pandas as pd
+    from contracts.rainflow_bounded import make, signals, DETECTORS
+    A, N = (4, 7) if ctx.tier == 'quick' else (4, 9)
+    ctx.bound = f"every 5th signal over {{0..{A-1}}} of length 3..{N} plus 3 longer ones; containers float64 / list / int64 / float32 / uint16 / int Series; one piece, two chunks, a re-used 3-sample buffer"
+    ctx.rule = "non-trivial: the signal has a turning point; distinct by (signal, container)"
+    mk = {'list': lambda v: [int(x) for x in v], 'int64': lambda v: np.array(v, dtype=np.int64), 'float32': lambda v: np.array(v, dtype=np.float32),
+          'uint16': lambda v: np.array(v, dtype=np.uint16), 'int Series': lambda v: pd.Series([int(x) for x in v])}
+    extra = [(2, 5, 3, 6, 2, 3, 1, 6, 1, 4, 2, 2, 3, 1, 4, 2, 5, 3, 4, 2), (0, 3, 1, 2, 0, 3, 3, 1, 2, 2, 0), (1, 0, 2, 0, 3, 1, 3, 0, 2, 1)]
+    sigs = [s_ for i_, s_ in enumerate(signals(A, N, 3)) if i_ % 5 == 0] + extra
+
+    def result(det, feed):
+        d, rec = make(det)
+        for c in feed:
+            d.process(c)
+        out = (list(map(float, rec.values_from)), list(map(float, rec.values_to)), list(map(float, d.residuals)))
+        if det != 'fkm':
+            out += (list(map(int, rec.index_from)), list(map(int, rec.index_to)), list(map(int, d.residual_index)))
+        return out
+    from specs.rainflow_spec import TP
+    for s_ in sigs:
+        if not ctx.mine():
+            continue
+        for det in DETECTORS:
+            ref = result(det, [np.array(s_, dtype=float)])
+            cut = len(s_) // 2
+            for cname, f in mk.items():
+                for how, feed in (('one piece', lambda: [f(s_)]), ('two chunks', lambda: [f(s_[:cut]), f(s_[cut:])])):
+                    ctx.case(len(TP(s_)) > 0, key=(s_, det, cname, how))
+                    try:
+                        got = result(det, feed())
+                    except Exception as e:   # noqa
+                        ctx.fail(f'C02:container:{cname}:raises:{type(e).__name__}', f'{det} detector on {list(s_)} given as {cname} ({how}) raises {type(e).__name__}: {str(e)[:120]}', {'signal': list(s_), 'container': cname})
+                        continue
+                    if got != ref:
+                        ctx.fail(f'C02:container:{cname}', f'{det} detector on {list(s_)} given as {cname} ({how}): {got}, as float64 array: {ref}', {'signal': list(s_), 'container': cname})
+            # streaming through one buffer that the caller overwrites with the next block
+            buf = np.zeros(3)
+            d, rec = make(det)
+            for p_ in range(0, len(s_), 3):
+                blk = s_[p_:p_ + 3]
+                buf[:len(blk)] = blk
+                d.process(buf[:len(blk)])
+            got = (list(map(float, rec.values_from)), list(map(float, rec.values_to)), list(map(float, d.residuals)))
+            ctx.case(len(TP(s_)) > 0, key=(s_, det, 'reused buffer'))
+            if got != ref[:3]:
+                ctx.fail('C02:container:reused-buffer', f'{det} detector on {list(s_)} streamed through a re-used 3-sample buffer: {got}, in one piece: {ref[:3]}', {'signal': list(s_)})
+    ctx.sample({'signal': list(extra[0]), 'containers': list(mk)})
+
+
 @bounded('C02', 'detectors=spec-machines', shards=16)
 def b_detectors(ctx):
     """four-point detector = textbook machine M4 (cycles in order with indices, residual); three-point detector reports the same
